@@ -84,6 +84,9 @@ def run(ctx):
                 ctx.fail(f"C18/{j['name']}/configuration-after-set_config_parameters-not-equal", f"{j['variant']}", "S-rel", {"job": j})
             elif r.get("via_set") != r.get("via_ctor"):
                 ctx.fail(f"C18/{j['name']}/run-after-set_config_parameters-differs", f"{j['variant']}", "S-rel", {"job": j})
+            if r.get("reconf_min_config_equal") is False:
+                ctx.fail(f"C18/{j['name']}/set_config_parameters-keeps-values-of-the-previous-configuration",
+                         f"after set_config_parameters(d) with only the required keys on a used instance: {r.get('reconf_min_detail')}", "S-rel", {"job": j})
             elif r.get("via_reconfigure", r.get("via_ctor")) != r.get("via_ctor"):
                 ctx.fail(f"C18/{j['name']}/run-after-reconfiguring-a-used-instance-differs", f"{j['variant']}: an instance that ran under another configuration and was then given this one by set_config_parameters differs from an instance constructed with it",
                          "S-rel", {"job": j})
